@@ -359,6 +359,14 @@ def o_c11(meta, ans, ctx):
 
 
 def o_c12(meta, ans, ctx):
+    if meta.get('kind') == 'loadu':
+        p = ans.split(' ')
+        if p[:3] == ['load', 'err', 'alignment']: return None
+        if len(p) > 2 and p[1] == 'ok':
+            if '@!' in p[2]: return 'misaligned-reference: %s returned a structure holding a misaligned reference (%s)' % (meta['loader'], p[2][:80])
+            if erase_borrows(p[2]) != meta['val']: return 'value: the loaded structure differs from the stored value'
+            return None
+        return 'load-overaligned: %s of an over-aligned type gives %s instead of an alignment error or a value' % (meta['loader'], ' '.join(p[1:3])[:40])
     if meta.get('kind') != 'case':
         return None
     a = parse_case_answer(ans)
@@ -846,6 +854,22 @@ class ProbeSpec(CaseSpec):
                     res['failures'].append((dict(sig, clause=why.split(':')[0], what=why), detail))
         res['coverage']['programs'] = len(got)
         res['coverage']['probe_results'] = samples
+        # programs marked `release` are built and run a second time with --release (no debug assertions, no overflow checks)
+        rel = [n for n in sorted(got) if expect[n].get('release') and expect[n]['expect'] == 'runs']
+        if rel:
+            _, got2 = probes.run_probe_bins(self.prefix, release=True)
+            for name in rel:
+                g = got2.get(name)
+                if g is None: continue
+                sig = {'op': 'probe-release', 'probe': name, 'outcome': 'ran' if g['compiled'] else 'rejected', 'type_shape': '', 'rust_type': ''}
+                detail = {'probe': name, 'profile': 'release', 'source': 'probes/src/bin/%s.rs' % name, 'output': g['stdout'][:1500], 'messages': g['messages'][:4]}
+                if not g['compiled']:
+                    res['disagreements'].append((dict(sig, kind='probe-build'), detail)); continue
+                why = self.judge_run(name, expect[name], g)
+                if why:
+                    detail['why'] = why + ' [release profile]'
+                    res['failures'].append((dict(sig, clause=why.split(':')[0], what=why), detail))
+                samples.append({'probe': name + ' (release profile)', 'path': expect[name]['path'], 'expected': 'runs', 'outcome': 'ran rc=%s' % g['rc'], 'codes': [], 'output': g['stdout'][:600]})
         return res
 
     def judge_accepted(self, name, e, g):
@@ -920,6 +944,10 @@ class C15Spec(ProbeSpec):
     prefix = 'c15_'
 
 
+class C11Spec(ProbeSpec):
+    prefix = 'c11_'
+
+
 class C05Spec(ProbeSpec):
     prefix = 'c05_'
 
@@ -952,26 +980,6 @@ class C17Spec(ProbeSpec):
 
     def judge_run(self, name, e, g):
         return self.judge_attempts(name, g, must_panic=(name != 'c17_ok'))
-
-    def run(self, prop, tier, seed, replay=None):
-        res = ProbeSpec.run(self, prop, tier, seed, replay)
-        # the run-time layer must stand in every build profile: the lying hand-written type again, optimized and without
-        # debug assertions (`cargo build --release`)
-        import probes
-        expect, got = probes.run_probe_bins('c17_lying_leaf', release=True)
-        for name in sorted(got):
-            g = got[name]
-            sig = {'op': 'probe-release', 'probe': name, 'outcome': 'ran' if g['compiled'] else 'rejected', 'type_shape': '', 'rust_type': ''}
-            detail = {'probe': name, 'profile': 'release', 'source': 'probes/src/bin/%s.rs' % name, 'output': g['stdout'][:1500], 'messages': g['messages'][:4]}
-            if not g['compiled']:
-                res['disagreements'].append((dict(sig, kind='probe-build'), detail))
-                continue
-            why = self.judge_attempts(name, g, must_panic=True)
-            if why:
-                detail['why'] = why + ' [release profile]'
-                res['failures'].append((dict(sig, clause=why.split(':')[0]), detail))
-            res['coverage'].setdefault('probe_results', []).append({'probe': name + ' (release profile)', 'path': expect[name]['path'], 'expected': 'runs', 'outcome': 'ran rc=%s' % g['rc'], 'codes': [], 'output': g['stdout'][:600]})
-        return res
 
     def judge_accepted(self, name, e, g):
         # rejected at compile time *or, failing that*, panics before writing any byte of the value
@@ -1064,7 +1072,7 @@ SPECS = {
     'C02': CaseSpec(o_c02, 'serialize each generated value, deserialize_eps from a 128-aligned (and 64 mod 128) buffer and deserialize_full the same bytes.'),
     'C07': C07Spec(o_c07, 'layout of every zero-copy type; schema rows (real write_bytes/padding events) and byte counts for every generated value.'),
     'C10': CaseSpec(o_c10, 'every single-bit flip of the 29 fixed header bytes (all 232 for a quarter of the types in the quick tier, a sample of 48 for the others), the reversed cookie, minor/major/usize boundary values; both modes.'),
-    'C11': CaseSpec(o_c11, 'every cut point k in [0,len) of the streams of generated values (streams up to 400 bytes in the quick tier); both modes; files cut at 8 fixed and 4 (16) random points loaded through load_full, mmap, load_mem, load_mmap.'),
+    'C11': C11Spec(o_c11, 'every cut point k in [0,len) of the streams of generated values (streams up to 400 bytes in the quick tier); both modes; files cut at 8 fixed and 4 (16) random points loaded through load_full, mmap, load_mem, load_mmap.'),
     'C12': CaseSpec(o_c12, 'every base residue 0..127 (all for half of the types with aligned blocks in the quick tier, 16 residues for the rest) x generated values; block list taken from the real schema.'),
     'C03': CaseSpec(o_c03, 'offsets of every borrowed part of real ε-copy results (pointer minus buffer start, printed by Show on the ε types) against the offsets of the writer blocks in the model; allocator calls and bytes during deserialize_eps for each value and for the same value with every borrowed payload repeated x4 and x16 (x2, x8, x64 thorough).'),
     'C06': CaseSpec(o_c06, 'golden corpus (NCORPUS files written by earlier builds for the fixed corpus universe: 227 at claim time, the others appended with the later stress definitions): re-serialization must reproduce the stored bytes, both deserializers must return the stored value, hash words must be the stored ones; plus bytes / hash feeds / digests of every generated type and value against the independent Lean encoder and XXH3 port.'),
